@@ -87,3 +87,11 @@ mod raw_memory_freelist;
 pub use self::address::Address;
 pub use self::address::ObjectReference;
 pub use self::opaque_pointer::*;
+
+/// Hooks for the external verification harness.
+#[cfg(feature = "mmtk_verif")]
+pub mod verif_hooks {
+    pub use super::freelist::{FreeList, FAILURE, MAX_HEADS, MAX_UNITS};
+    pub use super::int_array_freelist::IntArrayFreeList;
+    pub use super::raw_memory_freelist::RawMemoryFreeList;
+}
